@@ -213,6 +213,14 @@ def r11c(ctx):
                     none_possible = [q[1] for q in used
                                      if not any(a == ('isnone', q) and v is False
                                                 for a, v in p.assumptions)]
+                    # "x = x if opt is None else opt": with the option None the store writes
+                    # the current value back (no change)
+                    keeps = []
+                    for qn in list(none_possible):
+                        v0 = _fold_none(val, ('param', qn))
+                        if v0 == ('attr', recv, attr):
+                            keeps.append(qn)
+                    none_possible = [qn for qn in none_possible if qn not in keeps]
                     ok = not none_possible
                     ctx.ob('R11c', f'{fn.cls.name}.update_softmax_options store {attr} '
                            f'[{_lbl(guards)}]', ok,
@@ -242,6 +250,23 @@ def r11c(ctx):
                            f'{short(t, 120)}: {why} — the callee receives one option in place of '
                            f'another', where(fn, e.node))
         ctx.count(f'R11c:{fn.cls.name} stores', n_stores)
+
+
+def _fold_none(t, q):
+    """the value term with option q assumed None (conditional expressions on it folded)"""
+    if not isinstance(t, tuple):
+        return t
+    if t and t[0] == 'ifexp':
+        c = t[1]
+        isn = None
+        if c == ('isnone', q) or c == ('cmp', 'is', q, NONE):
+            isn = True
+        elif c in (('un', 'not', ('isnone', q)), ('cmp', 'is not', q, NONE),
+                   ('un', 'not', ('cmp', 'is', q, NONE))):
+            isn = False
+        if isn is not None:
+            return _fold_none(t[2] if isn else t[3], q)
+    return tuple(_fold_none(x, q) for x in t)
 
 
 def forwarding_ok(ctx, fn: FunctionInfo, t: Term):
